@@ -225,12 +225,6 @@ def run_case(case: dict) -> dict:
     stmts = case["stmts"]
     src = lang.pprogram(stmts)
     res["source"] = src
-    if "const-cell-data" in (case.get("exclude") or []):
-        _d, cd, _e = _support(stmts)
-        if any(not v for v in cd.values()):
-            res["status"] = "excluded"
-            res["excluded_by"] = "const-cell-data"
-            return res
     comp = compile_case(src, case["options"], case["plan"])
     merge_fired(res, comp)
     res["events"] = comp["events"]
